@@ -6,4 +6,5 @@ mkdir -p build/std evidence
 (cd harness && go build -tags verif -o ../build/tsverif . && go build -o ../build/probe ./probe) || exit 1
 (cd /repo && go build -tags verif -o /verif/build/tsh .) || exit 1
 cp -f /repo/std/*.tsh build/std/
+./build/tsverif selfcheck 400 || exit 1
 echo "setup ok"
